@@ -527,6 +527,7 @@ class Gen:
 class C01(PropBase):
     pid = "C01"
     coq_dirs = ["Base", "C01"]
+    translators = []
     bins = ["c01"]
     impl_timeout = 240
     impl_mem_gb = 4
